@@ -604,7 +604,48 @@ def r1710(ctx):
         else:
             ctx.ok(rid, h, "the handler delivers the exception before anything that can raise")
     if n == 0:
-        raise AnalysisError("R-17.10: no exception handler that completes the future found in _task_wrapper")
+        if any(isinstance(c, ast.Call) and last_name(c) == "set_exception" for c in walk_local(f)):
+            ctx.ok(rid, f, "the exception is delivered outside the handler (the handler only records it)")
+        else:
+            raise AnalysisError("R-17.10: no set_exception found in _task_wrapper")
+
+
+def r1711(ctx):
+    """Which of set_result / set_exception completes a unit's future is decided from that unit's
+    own execution: a name tested on the way to the completing call (`if failure is None`) is
+    (re)assigned on every path from the dequeue of the unit to the test. State that is
+    initialised once before the worker loop survives a failing unit: every later unit of that
+    worker coroutine has its result dropped and its future completed with the old exception."""
+    rid = "R-17.11"
+    f = ctx.tree.func(ASYNC, "aiorunner._task_wrapper")
+    cfg = cfg_of(f)
+    gets = [c for c in walk_local(f) if isinstance(c, ast.Call) and last_name(c) in ("get_nowait", "get")]
+    comp = [c for c in walk_local(f) if isinstance(c, ast.Call) and last_name(c) in ("set_result", "set_exception")]
+    if not gets or not comp:
+        raise AnalysisError("R-17.11: dequeue or completing calls not found in _task_wrapper")
+    gn = cfg.node_of(gets[0])
+    params = {a.arg for a in f.args.args}
+    n = 0
+    seen = set()
+    for c in comp:
+        for e, t, bn in cfg.guards(cfg.node_of(c)):
+            names = {x.id for x in ast.walk(e) if isinstance(x, ast.Name)} - params - {"self"}
+            for nm in sorted(names):
+                if (nm, bn.id) in seen:
+                    continue
+                seen.add((nm, bn.id))
+                stores = [cfg.node_of(st) for st in walk_local(f) if isinstance(st, (ast.Assign, ast.AugAssign, ast.AnnAssign)) and any(isinstance(t_, ast.Name) and t_.id == nm for t_ in (st.targets if isinstance(st, ast.Assign) else [st.target])) and cfg.nodes_of(st)]
+                # exception handlers bind their name
+                stores += [cfg.node_of(h) for h in walk_local(f) if isinstance(h, ast.ExceptHandler) and h.name == nm and cfg.nodes_of(h)]
+                if not cfg.reaches(gn, bn):
+                    continue  # a test before the dequeue (loop condition)
+                n += 1
+                if cfg.reaches(gn, bn, avoid=stores):
+                    ctx.bad(rid, e, f"_task_wrapper chooses between set_result and set_exception by `{short(e, 40)}`, but `{nm}` is not assigned on every path from the dequeue of the unit to this test (it is initialised once, before the worker loop): after one failing unit the worker coroutine keeps the old value - each later unit is executed, its result dropped and its future completed with the earlier unit's exception", construct=f"_task_wrapper: outcome selector {nm} not reset per unit")
+                else:
+                    ctx.ok(rid, e, f"`{nm}` is assigned for every unit before it selects the completing call")
+    if n == 0:
+        ctx.ok(rid, comp[0], "set_result / set_exception are selected by control flow alone (try / except of the unit's own execution)")
 
 
 def run(ctx):
@@ -625,6 +666,8 @@ def run(ctx):
     ctx.attempt(r179, ctx)
     ctx.rule("R-17.10", "a failing unit's exception is delivered whatever it is: nothing that can raise precedes future.set_exception() in the handler", floor=1)
     ctx.attempt(r1710, ctx)
+    ctx.rule("R-17.11", "the outcome of a unit is decided from state of that unit only: every name tested to choose between set_result and set_exception is assigned on every path from the dequeue to that test", floor=1)
+    ctx.attempt(r1711, ctx)
     ctx.rule("R-17.8", "every consumed result is committed: each normal path through treat_output writes restart.toml, so the persisted step counter never lags the steps whose rows were appended (shared with C06 R-6.14 / C08 R-8.11)", floor=1)
     from .shared import commit_every_step
     ctx.attempt(commit_every_step, ctx, "R-17.8", " (the step counter on disk lags the data file: the restarted run performs more than the target number of steps in total)")
@@ -633,6 +676,8 @@ def run(ctx):
 
 
 VARIANTS = [
+    B("c17-failure-flag-survives-between-units", ASYNC, "        while not stop_event.is_set():\n            try:\n                # Unpack queue element\n                md_item, future = queue.get_nowait()\n", "        failure = None\n        while not stop_event.is_set():\n            try:\n                # Unpack queue element\n                md_item, future = queue.get_nowait()\n", "R-17.11", control=True, also=[(ASYNC, "                    future.set_result(md_item)\n                except Exception as e:\n                    # Pass the exception up in the future\n                    future.set_exception(e)\n", "                except Exception as e:\n                    failure = e\n                if failure is None:\n                    future.set_result(md_item)\n                else:\n                    future.set_exception(failure)\n")], why="seeded C17_m"),
+    K("c17-keep-failure-flag-reset-per-unit", ASYNC, "                    future.set_result(md_item)\n                except Exception as e:\n                    # Pass the exception up in the future\n                    future.set_exception(e)\n", "                    failure = None\n                except Exception as e:\n                    failure = e\n                if failure is None:\n                    future.set_result(md_item)\n                else:\n                    future.set_exception(failure)\n"),
     B("c17-stop-waits-at-most-five-seconds", "infretis/asyncrunner.py", "        asyncio.run(self.wait_for_tasks_to_end())\n", "        try:\n            asyncio.run(asyncio.wait_for(self.wait_for_tasks_to_end(), 5.0))\n        except asyncio.TimeoutError:\n            logger.warning(\"Background tasks took too long to end\")\n", "R-17.7", control=True, why="seeded C17_l"),
     B("c17-handler-indexes-exception-args", "infretis/asyncrunner.py", "                    # Pass the exception up in the future\n                    future.set_exception(e)", "                    logger.error(\"Runner worker %s: task failed: %s\", taskID, e.args[0])\n                    future.set_exception(e)", "R-17.10", control=True, why="seeded C17_k"),
     K("c17-keep-handler-logs-exception", "infretis/asyncrunner.py", "                    # Pass the exception up in the future\n                    future.set_exception(e)", "                    logger.error(\"Runner worker %s: task failed: %s\", taskID, e)\n                    future.set_exception(e)"),
